@@ -955,6 +955,11 @@ func c09wGen(rng *rand.Rand, tier string) []core.Spec {
 					if k := ops[len(ops)-1].K; k != 0 && k != 5 && k != 10 {
 						ops = append(ops, WOp{K: 5})
 					}
+					// one time in three that earlier message hits a transport failure (an error or a missed
+					// deadline, nothing written): the close and everything after it must then fail too
+					if rng.Intn(3) == 0 {
+						sp.FailAt, sp.FailKind = rng.Intn(3), rng.Intn(2)
+					}
 				}
 				// a message writer opened before the close: empty, with buffered bytes, or with a frame already flushed
 				ew := wbuf
